@@ -16,7 +16,7 @@ def emit_all(emit):
     rows = []
     for case in c20.probe_cases():
         rats = [Fraction(x) for x in case["r"]]
-        outcome = c20.impl_call(case["name"], rats, case["s"])
+        outcome = c20.impl_call(case["name"], rats, case["s"], light=True)
         rows.append((case["name"], [(q.numerator, q.denominator) for q in rats], list(case["s"]), outcome))
     # emitted in a fixed number of chunks: one long literal with 2^52 denominators is slow to elaborate
     n_chunks = 10
